@@ -400,6 +400,21 @@ def rule_sb(ctx):
                     types = sorted(A.src(e) for e in (t.elts if isinstance(t, ast.Tuple) else [t]))
                     sites.append((cls, mname, n, types))
     for cls, mname, n, types in sites:
+        # the object whose __name__ is taken is the one that was tested (the resolved selection, not the raw option
+        # that may still be `True`)
+        subj = A.src(n.args[0])
+        holder = n
+        for a_ in A.ancestors(n):
+            if isinstance(a_, (ast.IfExp, ast.If)):
+                holder = a_
+                break
+        comp_vars = {t_ for c_ in ast.walk(holder) if isinstance(c_, ast.comprehension) for t_ in A.name_targets(c_.target)}
+        other = [x for x in ast.walk(holder) if isinstance(x, ast.Attribute) and x.attr == '__name__'
+                 and not (isinstance(x.value, ast.Name) and x.value.id in comp_vars)
+                 and A.src(x.value) != subj and 'exception' in A.src(x.value)]
+        rep.ob('SB', K.key(cls, mname, 'name-taken-of-the-tested-selection'), not other, other[0] if other else n,
+               '' if not other else '`%s.__name__` is taken although `%s` is what was tested: the raw option may still be '
+               '`True` (short for FilterException), which has no __name__' % (A.short(other[0].value, 40), subj))
         ok = 'tuple' in types
         rep.ob('SB', K.key(cls, mname, 'type-names-of-a-tuple-selection'), ok, n,
                '' if ok else 'the summary takes `.__name__` of the selection unless it is one of %s: a tuple of exception '
